@@ -726,17 +726,26 @@ func (x *Exec) special(fr *frame, st *State, f *ssa.Function, full string, args 
 		e := freshVal(x.c, "err", f.Signature.Results().At(0).Type())
 		x.c.Assume(Not(Eq(e.L[0], BVLit(0, 32))))
 		if ts, n, ok := x.fmtOperands(st, args, reach); ok {
-			e.L[1] = x.c.App(fmt.Sprintf("errorf_%d", n), SBV(64), ts...)
+			e.L[1] = x.c.App(fmt.Sprintf("errorf_%d_a%d", n, len(ts)), SBV(64), ts...)
 		} else if len(args) > 1 {
 			// unknown number of operands: the text may depend on all of them
-			e.L[1] = x.c.App("errorf_any", SBV(64), append(x.allLeaves(args), x.c.Named("TAINT_operands_of_unknown_arity", SBV(64)))...)
+			all := append(x.allLeaves(args), x.c.Named("TAINT_operands_of_unknown_arity", SBV(64)))
+			sig := ""
+			for _, t := range all {
+				sig += string(t.Sort)
+			}
+			e.L[1] = x.c.App("errorf_any_"+sanitize(sig), SBV(64), all...)
 		}
 		return []Val{e}, true
 	case "fmt.Sprintf", "fmt.Sprint":
 		// with a known number of operands the text is a function of the format and the operands
 		if full == "fmt.Sprintf" {
 			if ts, n, ok := x.fmtOperands(st, args, reach); ok {
-				return []Val{{T: types.Typ[types.String], L: []Term{x.c.App(fmt.Sprintf("sprintf_%d", n), SStr, ts...)}}}, true
+				name := fmt.Sprintf("sprintf_%d", n)
+				if int64(len(ts)) != 1+2*n {
+					name = fmt.Sprintf("sprintf_%d_a%d", n, len(ts)) // extra dependency markers
+				}
+				return []Val{{T: types.Typ[types.String], L: []Term{x.c.App(name, SStr, ts...)}}}, true
 			}
 		}
 		return []Val{freshVal(x.c, "sprintf", types.Typ[types.String])}, true
@@ -935,6 +944,9 @@ func (x *Exec) builtin(fr *frame, st *State, f *ssa.Builtin, cc *ssa.CallCommon,
 		}
 		return []Val{freshVal(x.c, "cap", types.Typ[types.Int])}
 	case "append":
+		if r, ok := x.preciseAppend(st, cc, args, reach); ok {
+			return []Val{r}
+		}
 		s := args[0]
 		rt := cc.Args[0].Type()
 		id := x.freshSliceID()
@@ -1623,4 +1635,64 @@ func variadicOperandTypes(cc *ssa.CallCommon) []types.Type {
 		}
 	}
 	return out
+}
+
+// preciseAppend: append(s, e0 .. ek-1) with a statically known number of
+// appended elements. Go semantics: when the capacity suffices the elements are
+// written into s's own backing store (visible through every slice sharing it)
+// and the result shares it; otherwise the result is a fresh store holding a copy
+// of s's elements followed by the new ones.
+func (x *Exec) preciseAppend(st *State, cc *ssa.CallCommon, args []Val, reach Term) (Val, bool) {
+	if len(args) != 2 || len(args[0].L) != 3 || len(args[1].L) != 3 {
+		return Val{}, false
+	}
+	rt := cc.Args[0].Type()
+	sl, ok := rt.Underlying().(*types.Slice)
+	if !ok || isString(cc.Args[1].Type()) {
+		return Val{}, false
+	}
+	k, ok := bvLitValue(args[1].L[1])
+	if !ok || k < 0 || k > 8 {
+		return Val{}, false
+	}
+	es := shape(sl.Elem())
+	for _, l := range es {
+		if l.Sort.IsArr() {
+			return Val{}, false
+		}
+	}
+	s := args[0]
+	n := Op("bvadd", SBV(64), s.L[1], BVLit(k, 64))
+	inplace := And(Op("bvsle", SBool, n, s.L[2]), Not(Eq(s.L[0], BVLit(0, 64))))
+	fresh := x.freshSliceID()
+	newid := x.c.Define("appid", Ite(inplace, s.L[0], fresh))
+	fcap := x.c.Fresh("cap", SBV(64))
+	x.c.Assume(Op("bvsle", SBool, n, fcap))
+	newcap := Ite(inplace, s.L[2], fcap)
+	if k == 0 {
+		return Val{T: rt, L: []Term{s.L[0], s.L[1], s.L[2]}}, true
+	}
+	for _, l := range es {
+		key := sliceKey(sl.Elem(), l.Path)
+		srt := SArr(SBV(64), SArr(SBV(64), l.Sort))
+		h := x.heapGet(st, key, srt)
+		base := Select(h, s.L[0])
+		for j := int64(0); j < k; j++ {
+			a := &Addr{Kind: addrElem, SliceID: args[1].L[0], Index: BVLit(j, 64), ElemT: sl.Elem(), FT: sl.Elem()}
+			ev := x.scalarize(x.load(st, a, reach))
+			// the leaf of this element at path l
+			var leaf Term
+			for li, ll := range es {
+				if ll.Path == l.Path && li < len(ev.L) {
+					leaf = ev.L[li]
+				}
+			}
+			if leaf.S == "" {
+				return Val{}, false
+			}
+			base = Store(base, Op("bvadd", SBV(64), s.L[1], BVLit(j, 64)), leaf)
+		}
+		x.heapSet(st, key, x.c.Define("H_"+key, Store(h, newid, base)))
+	}
+	return Val{T: rt, L: []Term{newid, n, newcap}}, true
 }
